@@ -238,8 +238,8 @@ def run_task(task):
                 if k_seen != cc["K"] or n_seen != cc["n"]:
                     part.violation("C13|run loop passes K or n that differ from the tree's clone count / non-outlier "
                                    "data count", dict(case, passed=[k_seen, n_seen], tree=[cc["K"], cc["n"]]))
-                if cc["alpha_after"] != cc["ret"] or not (
-                        cc["log_alpha_after"] == math.log(cc["ret"]) if cc["ret"] > 0 else True):
+                if cc["alpha_after"] != cc["ret"] or (cc["ret"] > 0 and not abs(
+                        float(cc["log_alpha_after"]) - math.log(cc["ret"])) <= 1e-12 * max(1.0, abs(math.log(cc["ret"])))):
                     part.violation("C13|new concentration value is not the one used afterwards (alpha / log alpha)",
                                    dict(case, ret=cc["ret"], alpha=cc["alpha_after"], log_alpha=cc["log_alpha_after"]))
                 if cc["K"] == 0:
